@@ -411,15 +411,17 @@ class Arbiter(object):
             del self._watchers_names[w.name.lower()]
             self.watchers.remove(w)
 
-        # add watchers
-        for n in added_wn:
+        # add watchers: started highest priority first, as at daemon start
+        added = [(self.get_plugin_config(new_cfg, n) or
+                  self.get_watcher_config(new_cfg, n)) for n in added_wn]
+        added.sort(key=lambda cfg: int(cfg.get('priority', 0)), reverse=True)
+        for new_watcher_cfg in added:
+            n = new_watcher_cfg['name']
             if n.lower() in self._watchers_names:
                 # names are unique ignoring case (see add_watcher)
                 logger.error("watcher %r not added: %r already exists", n,
                              self._watchers_names[n.lower()].name)
                 continue
-            new_watcher_cfg = (self.get_plugin_config(new_cfg, n) or
-                               self.get_watcher_config(new_cfg, n))
 
             w = Watcher.load_from_config(new_watcher_cfg)
             w.initialize(self.evpub_socket, self.sockets, self)
